@@ -531,5 +531,5 @@ def record(sc):
         for i, c in enumerate(ses.cfgs or (sc["inds"] + sc.get("late", []))):
             c.mg = c.mg_index(mg_names)
             inds.append(dict(c.spec(ses.live.get(i, "")), act=1 if i < len(sc["inds"]) else 0))
-    return {"id": sc["id"], "fam": sc["fam"], "mg": mg, "ind": inds,
+    return {"id": sc["id"], "fam": sc["fam"], "mg": mg, "ind": inds, "mute": list(sc.get("mute", [])),
             "raw": raw_json(sc["stream"], sc.get("readings")), "ev": events}
